@@ -86,7 +86,10 @@ TraceInit ==
     /\ effv = EmptyMap
 
 \* a failed clause: <<clause, what the specification says, the name concerned>>
-Fail(f) == PrintT(<<"FAIL", Traces[tid].tid, l, f[1], f[2], f[3]>>)
+\* (the name is printed as its position in the universe of the batch: TLC breaks long values over lines)
+NameNo(n) == LET S == {i \in DOMAIN Traces[1].names : Traces[1].names[i] = n} IN
+             IF S = {} THEN 0 ELSE CHOOSE i \in S : TRUE
+Fail(f) == PrintT(<<"FAIL", Traces[tid].tid, l, f[1], f[2], NameNo(f[3])>>)
 
 \* The failed clauses of event e, given the specification's outcome o of the call.  Reads the
 \* PRIMED variables: Consume has adopted the recorded state into them, so they are plain values.
